@@ -88,7 +88,7 @@ def selections(typ, side):
     return out
 
 
-def library_reference(fa, fb, tf, tt, opt=('auto', 'on'), color=False, jl=False, jd=False):
+def library_reference(fa, fb, tf, tt, opt=('auto', 'on'), color=False, jl=False, jd=False, fmt=None, mode=None):
     """What the library produces for these files when they are parsed as types tf / tt."""
     from graphtage import graphtage as gg
     from graphtage.printer import Printer
@@ -98,8 +98,17 @@ def library_reference(fa, fb, tf, tt, opt=('auto', 'on'), color=False, jl=False,
     tb = gg.FILETYPES_BY_TYPENAME[tt].build_tree(fb, options)
     buf = io.StringIO()
     p = Printer(buf, ansi_color=color, quiet=True, options={'join_lists': jl, 'join_dict_items': jd})
+    formatter = gg.FILETYPES_BY_TYPENAME[fmt or tf].get_default_formatter()
+    if mode == '-e':
+        had = False
+        for edit in ta.get_all_edits(tb):
+            p.write(str(edit))
+            p.newline()
+            had = had or edit.has_non_zero_cost()
+        p.write('\n')
+        return (1 if had else 0), buf.getvalue()
     d = ta.diff(tb)
-    gg.FILETYPES_BY_TYPENAME[tf].get_default_formatter().print(p, d)
+    formatter.print(p, d)
     p.write('\n')
     had = any(any(e.has_non_zero_cost() for e in n.edit_list) for n in d.dfs())
     return (1 if had else 0), buf.getvalue()
@@ -175,6 +184,14 @@ def alias_cases(tier):
                 for lay in ((False, False), (True, False), (False, True), (True, True)):
                     for color in (False, True):
                         yield {'leg': 'options', 'opt': list(opt), 'tf': tf, 'doc': which, 'jl': lay[0], 'jd': lay[1], 'color': color}
+    # output format and edit-list mode against the library
+    for tf in ('json', 'yaml', 'plist', 'xml', 'csv'):
+        for which in range(3):
+            for fmt in ('json', 'json5', 'yaml', 'csv', 'xml', 'html', 'plist', 'pickle'):
+                for color in (False, True):
+                    yield {'leg': 'options', 'opt': ['auto', 'on'], 'tf': tf, 'doc': which, 'jl': False, 'jd': False, 'color': color, 'fmt': fmt}
+            for opt in OPTION_SETS:
+                yield {'leg': 'options', 'opt': list(opt), 'tf': tf, 'doc': which, 'jl': False, 'jd': False, 'color': False, 'mode': '-e'}
 
 
 def conflicts(a, b):
@@ -208,11 +225,12 @@ def alias_eval(case):
         return 2, None, {h(('alias', case['alias'], tf, case['doc'], tuple(extra), o1.rc, o1.out))}
     opt = tuple(case['opt'])
     argv = ['--no-status', '--color' if case['color'] else '--no-color'] + cli_flags(opt) + (['-jl'] if case['jl'] else []) + \
-           (['-jd'] if case['jd'] else []) + [fa, fb]
+           (['-jd'] if case['jd'] else []) + (['--format', case['fmt']] if case.get('fmt') else []) + \
+           ([case['mode']] if case.get('mode') else []) + [fa, fb]
     o = cli.run_main(argv)
     if o.exc:
         return 1, {'key': f'cli_exception {o.exc} @ {o.exc_site} : options', 'detail': ' '.join(argv) + o.tb[-1200:]}, set()
-    want = library_reference(fa, fb, tf, tf, opt, case['color'], case['jl'], case['jd'])
+    want = library_reference(fa, fb, tf, tf, opt, case['color'], case['jl'], case['jd'], case.get('fmt'), case.get('mode'))
     if (o.rc, o.out) != want:
         what = 'exit_status' if o.rc != want[0] else 'output'
         return 1, {'key': f'cli_{what}_differs_from_library @ __main__.main : options dict={opt[0]}, lists={opt[1]}, jl={case["jl"]}, jd={case["jd"]}',
